@@ -1,8 +1,10 @@
 """C14 - hashing is correct, chunking-independent, and a faithful pass-through."""
 
+import contextlib
 import hashlib
 import io
 import os
+import threading
 
 from hypothesis import strategies as st
 
@@ -22,7 +24,11 @@ RULE = (
     "lower/upper/mixed case), an entry point (HashStreamFile / Dos2UnixHashStreamFile constructors, "
     "get_hash_stream, fobj_md5 with a drawn chunk size, file_md5 and hash_file on a real file and on a "
     "memory filesystem) and a read-size sequence (>=1, -1 or no argument for the plain stream; >=512 for "
-    "the legacy stream; optionally an underlying file object that returns short reads). Oracle: hashlib "
+    "the legacy stream; optionally an underlying file object that returns short reads; the stream arm also "
+    "draws the wrapped source - BytesIO, real file, read end of an os.pipe, a read()-only object without "
+    "tell/seek - and where it stands when wrapped: offset 0/1/16/512/>half reached by a plain read, a seek, or "
+    "a first hashing stream on the same object; everything below is then judged on the suffix that went "
+    "through the wrapper, and reading total_read must not raise). Oracle: hashlib "
     "on the whole content (blake3: one-shot single-threaded blake3 of the whole content), concatenated "
     "read() results == content == what the underlying file object returned, total_read == cumulative "
     "length after every read (plain stream); at drawn peek positions (before the first read, between reads, "
@@ -242,6 +248,15 @@ def cases(draw):
         case["reads"] = draw(st.lists(LEGACY_READS if legacy else PLAIN_READS, min_size=1, max_size=6))
         case["short"] = [] if legacy else draw(st.sampled_from([[], [], [], [1], [3, 700], [512], [100000]]))
         case["peeks"] = draw(PEEKS)
+        # what the stream wraps, and where that source stands when it is wrapped
+        kind = draw(st.sampled_from(["bytesio", "bytesio", "file", "pipe", "readonly"]))
+        case["source"] = {
+            "kind": kind,
+            "offset": draw(st.sampled_from([0, 0, 1, 16, 512, "half"])),
+            # bytes before the offset were consumed by: a plain read, a seek, or a first hashing stream
+            "how": draw(st.sampled_from(["read", "seek", "stream"] if kind in ("bytesio", "file")
+                                        else ["read", "stream"])),
+        }
     elif entry == "fobj":
         if legacy:
             mask = 0
@@ -281,8 +296,10 @@ def cases(draw):
 class Spy:
     """Underlying binary file object: logs what it hands out; optionally returns short reads."""
 
-    def __init__(self, data, short=()):
-        self.b = io.BytesIO(data)
+    def __init__(self, data, short=(), can_tell=True):
+        # `data`: bytes (wrapped in a BytesIO) or an already opened/positioned raw source object
+        self.b = io.BytesIO(data) if isinstance(data, bytes) else data
+        self.can_tell = can_tell
         self.short = list(short)
         self.i = 0
         self.log = []
@@ -296,7 +313,61 @@ class Spy:
         return chunk
 
     def tell(self):
-        return self.b.tell()
+        return self.b.tell()  # pipe: OSError, read-only object: AttributeError - like the raw source itself
+
+
+class ReadOnly:
+    """A minimal binary source: read() and nothing else (no tell, no seek)."""
+
+    def __init__(self, data):
+        self._b = io.BytesIO(data)
+
+    def read(self, n=-1):
+        return self._b.read(n)
+
+
+@contextlib.contextmanager
+def open_source(kind, content, ctx):
+    """Yield a readable binary source positioned at 0: BytesIO, a real file, the read end of an os.pipe fed by
+    a writer thread (joined before the case ends), or a read()-only object."""
+    if kind == "file":
+        with ctx.tmpdir() as d:
+            p = os.path.join(d, "src.bin")
+            with open(p, "wb") as f:
+                f.write(content)
+            with open(p, "rb") as f:
+                yield f
+    elif kind == "pipe":
+        rfd, wfd = os.pipe()
+
+        def writer():
+            try:
+                with os.fdopen(wfd, "wb") as w:
+                    w.write(content)
+            except OSError:
+                pass  # reader went away early (a violation ended the case)
+
+        t = threading.Thread(target=writer, daemon=True)
+        t.start()
+        r = os.fdopen(rfd, "rb")
+        try:
+            yield r
+        finally:
+            r.close()
+            t.join()
+    elif kind == "readonly":
+        yield ReadOnly(content)
+    else:
+        yield io.BytesIO(content)
+
+
+def counted(stream, viols, tag):
+    """stream.total_read, or None (+ violation) if merely reading the counter raises."""
+    try:
+        return stream.total_read
+    except Exception as exc:  # noqa: BLE001
+        viols.append(Viol(f"total_read-raises:{tag}", f"reading total_read raised {type(exc).__name__}: {exc}"))
+        return None
 
 
 MAX_READS = 1500
@@ -331,9 +402,11 @@ def peek(stream, spy, out, cum, legacy, base, viols, tag, names):
     if want is not None and hv1 != want:
         viols.append(Viol(f"digest:peek:{tag}", f"hash_value after {len(consumed)} bytes ({len(out)} reads) is {hv1}, "
                                                 f"reference digest of that prefix {want}"))
-    if not legacy and stream.total_read != cum:
-        viols.append(Viol(f"total_read:{tag}", f"total_read={stream.total_read} after {cum} bytes were read"))
-    if stream.tell() != spy.tell():
+    if not legacy:
+        tr = counted(stream, viols, tag)
+        if tr is not None and tr != cum:
+            viols.append(Viol(f"total_read:{tag}", f"total_read={tr} after {cum} bytes were read through the stream"))
+    if spy.can_tell and stream.tell() != spy.tell():
         viols.append(Viol(f"tell:{tag}", f"tell()={stream.tell()} but the file object is at {spy.tell()}"))
     names.add(stream.hash_name)
     if len(names) > 1:
@@ -368,9 +441,14 @@ def drive_stream(stream, spy, reads, legacy, viols, tag, peeks=(), base=None):
             viols.append(Viol(f"overlong-read:{tag}", f"read({n}) returned {len(chunk)} bytes"))
             return out
         cum += len(chunk)
-        if not legacy and stream.total_read != cum:
-            viols.append(Viol(f"total_read:{tag}", f"total_read={stream.total_read} after {cum} bytes were read"))
-            return out
+        if not legacy:
+            tr = counted(stream, viols, tag)
+            if tr is None:
+                return out
+            if tr != cum:
+                viols.append(Viol(f"total_read:{tag}", f"total_read={tr} after {cum} bytes were read through the "
+                                                       f"stream"))
+                return out
         out.append(chunk)
         if not chunk:
             if peeks:
@@ -504,25 +582,55 @@ def run_case(case, ctx):
                                                               f"{got}, reference {want}"))
 
     if entry == "stream":
-        spy = Spy(content, case["short"])
-        stream = make_stream(case, spy, base)
+        src = case.get("source") or {"kind": "bytesio", "offset": 0, "how": "read"}
         tag = "stream"
-        chunks = drive_stream(stream, spy, case["reads"], legacy, viols, tag, case.get("peeks", []), base)
+        want_off = len(content) // 2 + 1 if src["offset"] == "half" else src["offset"]
+        want_off = min(want_off, len(content))
+        seekable = src["kind"] in ("bytesio", "file")
+        with open_source(src["kind"], content, ctx) as raw:
+            start = 0
+            if want_off and src["how"] == "seek":
+                raw.seek(want_off)
+                start = want_off
+            elif want_off and src["how"] == "read":
+                start = len(raw.read(want_off))
+            elif want_off:
+                # a first hashing stream consumed the head; the judged one starts where it stopped
+                spy1 = Spy(raw, can_tell=seekable)
+                first = make_stream(case, spy1, base)
+                head = first.read(max(512, want_off) if legacy else want_off)
+                start = len(head)
+                if head != content[:start]:
+                    viols.append(Viol("passthrough:first-stream", "first stream did not hand on the head unchanged"))
+                check_digest(first.hash_value, head, base, [head], viols, [], "first-stream")
+                if not legacy and counted(first, viols, "first-stream") not in (None, start):
+                    viols.append(Viol("total_read:first-stream", f"first stream handed on {start} bytes, "
+                                                                 f"total_read={first.total_read}"))
+                classes.append("second-stream-on-one-source")
+            suffix = content[start:]
+            spy = Spy(raw, case["short"], can_tell=seekable)
+            stream = make_stream(case, spy, base)
+            chunks = [] if viols else drive_stream(stream, spy, case["reads"], legacy, viols, tag,
+                                                   case.get("peeks", []), base)
+            if not viols:
+                if b"".join(chunks) != suffix:
+                    viols.append(Viol(f"bytes-altered:{tag}", f"concatenated reads ({sum(map(len, chunks))} B) != "
+                                                              f"the source from offset {start} ({len(suffix)} B)"))
+                check_digest(stream.hash_value, suffix, base, chunks, viols, classes, tag)
+        classes.append("source=" + src["kind"])
+        if start:
+            classes.append("start-offset>0")
         if case.get("peeks"):
             classes.append("peeks")
             if 0 in case["peeks"]:
                 classes.append("peek-before-first-read")
-        if not viols:
-            if b"".join(chunks) != content:
-                viols.append(Viol(f"bytes-altered:{tag}", f"concatenated reads ({sum(map(len, chunks))} B) != "
-                                                          f"content ({len(content)} B)"))
-            check_digest(stream.hash_value, content, base, chunks, viols, classes, tag)
         nreads = sum(1 for c in chunks if c)
         classes.append("via=" + case["via"])
         if case["short"]:
             classes.append("short-reads")
         if any(n in (-1, None) for n in case["reads"]):
             classes.append("read-all")
+        content = suffix
     elif entry == "fobj":
         spy = Spy(content, case["short"])
         # bound the number of reads: tiny chunk sizes are scaled up for large contents
@@ -667,7 +775,7 @@ def run(ctx):
             from . import c14_booster
 
             c14_booster.run(ctx)
-    ctx.run_given(cases(), run_case, ctx.n(quick=2000, thorough=40000))
+    ctx.run_given(cases(), run_case, ctx.n(quick=1800, thorough=40000))
 
 
 def replay(case, ctx):
